@@ -122,6 +122,30 @@ class VLoop(asyncio.BaseEventLoop):
         self._ready.append(h)
         return True
 
+    @staticmethod
+    def is_timeout_handle(h):
+        '''aiorpcx timeout_after deadlines (protocol time-outs), as opposed to polling sleeps.'''
+        return getattr(getattr(h, '_callback', None), '__name__', '') == 'timeout_task'
+
+    def polling_timers(self):
+        return sorted((h for h in self._scheduled if not h._cancelled
+                       and not self.is_timeout_handle(h)), key=lambda h: h._when)
+
+    def fire_polling_timer(self, max_when=None):
+        '''Fire the earliest timer that is not a protocol time-out (those never fire: no job
+        or daemon call is assumed to outlast them).'''
+        hs = self.polling_timers()
+        if not hs or (max_when is not None and hs[0]._when > max_when):
+            return False
+        h = hs[0]
+        self._scheduled.remove(h)
+        heapq.heapify(self._scheduled)
+        h._scheduled = False
+        if h._when > self._vtime:
+            self._vtime = h._when
+        self._ready.append(h)
+        return True
+
     def pending_jobs(self):
         return [j for j in self.jobs if not j.started]
 
